@@ -24,7 +24,17 @@ type projectState struct {
 	include []string
 	exclude []string
 	merge   map[string]interface{}
+	order   []string
 	skip    map[string]bool
+}
+
+// overlay records the value an operator expression yields for a path; the
+// overlays are applied in the order of the projection
+func (s *projectState) overlay(path string, value interface{}) {
+	if _, ok := s.merge[path]; !ok {
+		s.order = append(s.order, path)
+	}
+	s.merge[path] = value
 }
 
 // ProjectList will apply the provided projection to the specified list.
@@ -107,8 +117,8 @@ func Project(doc, projection bsonkit.Doc) (bsonkit.Doc, error) {
 	}
 
 	// merge fields (overlays from operator expressions)
-	for path, value := range state.merge {
-		_, err := bsonkit.Put(res, path, value, false)
+	for _, path := range state.order {
+		_, err := bsonkit.Put(res, path, state.merge[path], false)
 		if err != nil {
 			return nil, err
 		}
@@ -215,7 +225,7 @@ func projectSlice(ctx Context, doc bsonkit.Doc, _, path string, v interface{}) e
 		if end > n {
 			end = n
 		}
-		state.merge[path] = append(bson.A{}, array[start:end]...)
+		state.overlay(path, append(bson.A{}, array[start:end]...))
 		return nil
 	}
 
@@ -223,19 +233,19 @@ func projectSlice(ctx Context, doc bsonkit.Doc, _, path string, v interface{}) e
 	switch {
 	case limit > 0:
 		if limit < len(array) {
-			state.merge[path] = array[0:limit]
+			state.overlay(path, array[0:limit])
 		} else {
-			state.merge[path] = array
+			state.overlay(path, array)
 		}
 	case limit < 0:
 		n := -limit
 		if n < len(array) {
-			state.merge[path] = array[len(array)-n:]
+			state.overlay(path, array[len(array)-n:])
 		} else {
-			state.merge[path] = array
+			state.overlay(path, array)
 		}
 	default:
-		state.merge[path] = bson.A{}
+		state.overlay(path, bson.A{})
 	}
 
 	return nil
@@ -307,7 +317,7 @@ func projectElemMatch(ctx Context, doc bsonkit.Doc, _, path string, v interface{
 		}
 
 		// emit single-element array via merge
-		state.merge[path] = bson.A{item}
+		state.overlay(path, bson.A{item})
 
 		return nil
 	}
